@@ -42,6 +42,8 @@ var concSources = []string{
 	`find all at least 1 ('a' or 'b') fewest 'c'`,
 	`replace all (digit = d) with d d`,
 	`set f to transform return match + matchLength end replace all at least 1 letter with f`,
+	`set p to pattern at least 1 letter begin return matchLength > 1 end find all p`,
+	`set q to pattern at least 1 any fewest begin if head match == 'a' then return true end return matchLength == 2 end find all q ' ' or q`,
 	`find all @/(a/`,
 	`find all (`,
 	`find all @/(x)(y)(z)\3\2\1/ find all @/(q)\1/`,
